@@ -1,12 +1,12 @@
 SPECIFICATION Spec
 CONSTANTS
-  TS <- Q_TS
-  MS <- MC_MS
+  TS <- T_TS
+  MS <- T_MS
   SC <- MC_SC
   OPS <- MC_OPS
   BATCH <- MC_BATCH
   ITEMS <- MC_ITEMS
-  WIDTHS <- MC_WIDTHS
+  WIDTHS <- T_WIDTHS
 INVARIANT DesignOK
 INVARIANT RankLawOK
 CHECK_DEADLOCK FALSE
